@@ -278,6 +278,8 @@ def run_batch(ctx, tag, items, shard=60):
             s_bad.append(idx[i])
         for i, code in zip(ls[1][0::2], ls[1][1::2]):
             b_bad[idx[i]] = code
+    # programs outside Sdk.Lower (marked by the caller): behavioural oracle only
+    s_bad = [i for i in s_bad if not items[i].get("no_struct")]
     return sorted(s_bad), b_bad, untrans
 
 
